@@ -129,6 +129,9 @@ package scheduler
 //@   requires wfS(p)
 //@   modifies nothing
 //@   ensures #C03.done-means-terminal result ==> (forall n string :: n in p.nodes ==> terminal(p.nodes[n]))
+// (the converse — "not done" means some stage is still waiting or running — is true of the moment of the read only:
+// it is not stable under the stage goroutines' writes and is not claimed; a mutant `return false` at the end of
+// isDone is a liveness failure of the polling loop, which is outside what these contracts decide)
 //@   loop 1 "range p.Nodes()"
 //@     invariant #same p == p0
 //@     invariant #C03.seen-terminal forall n string :: $seen[n] ==> terminal(p.nodes[n])
@@ -168,9 +171,28 @@ package scheduler
 //@     invariant #same s == s0 && g == g0 && s != nil && s.taskRunner != nil && wfS(g) && depsAre(g) && hasWork(g) && nestedSchedulable(g)
 //@     invariant #J forall n string :: n in g.nodes && spawned[g.nodes[n]] ==> g.nodes[n].Status != StatusWaiting
 //@   effect no awaits-task in loop 1 except Cancel
+// what happens to a waiting stage is decided by its condition and its dependencies, in that order (C02 / C03):
+// only a condition that cannot be evaluated makes it Error and cancels the run; only a condition that says no
+// makes it Skipped; it is started only when its dependencies are finished and its condition, if any, said yes
+//@   ghostlocal condMet bool
+//@   ghostlocal condErr error
+//@   ghostlocal depsReady bool
+//@   ghostlocal addedFor *Stage
+//@   callsite checkStageCondition
+//@     requires #C03.condition-of-this-stage arg0 == stage.Condition && stage.Condition != ""
+//@     ghost condMet = result
+//@     ghost condErr = result#1
+//@   callsite Cancel
+//@     requires #C03.cancels-only-when-a-condition-cannot-be-evaluated calls(checkStageCondition) >= 1 && condErr != nil
 //@   callsite checkStatus
+//@     requires #C02.condition-decided-first stage.Condition == "" || (condErr == nil && condMet)
 //@     ghost readyCount = readyCount + (result ? 1 : 0)
+//@     ghost depsReady = result
+//@   callsite Add
+//@     requires #C12.one-registration-per-stage-goroutine arg0 == 1 && depsReady
+//@     ghost addedFor = stage
 //@   callsite go Schedule$2
+//@     requires #C12.registered-with-the-waitgroup-first addedFor == stage && depsReady
 //@     ghost spawnCount = spawnCount + 1
 //@     assumepre nestedSchedulable(g) && stage.Pipeline != nil ==> schedulable(stage.Pipeline)
 //@     requires #C03.first-spawn !spawned[stage]
@@ -186,6 +208,7 @@ package scheduler
 //@   modifies *
 //@   ensures #C02.error-recorded failed[stage] && !stage.AllowFailure ==> stage.Status == StatusError && g.error != nil
 //@   ensures #C02.done-otherwise !(failed[stage] && !stage.AllowFailure) ==> stage.Status == StatusDone
+//@   ensures #C12.unregisters-exactly-once calls(Done) == 1
 //@   effect no may-block before runStage
 //@   effect no lock-held at runStage
 //@   callsite runStage
@@ -205,6 +228,9 @@ package scheduler
 //@     requires #C08.runs-own-task arg0 == stage.Task
 //@     requires #C09.stage-env-over-task-env stage.Env != nil && old(stage.Task.Env) != nil ==> over(stage.Task.Env, old(stage.Task.Env), stage.Env)
 //@     requires #C10.stage-vars-over-task-vars stage.Variables != nil && old(stage.Task.Variables) != nil ==> over(stage.Task.Variables, old(stage.Task.Variables), stage.Variables)
+//@     requires #C09.stage-env-alone-when-the-task-has-none stage.Env != nil && old(stage.Task.Env) == nil ==> stage.Task.Env == stage.Env
+//@     requires #C10.stage-vars-alone-when-the-task-has-none stage.Variables != nil && old(stage.Task.Variables) == nil ==> stage.Task.Variables == stage.Variables
+//@     requires #C08.nothing-to-layer-nothing-changed (stage.Env == nil ==> stage.Task.Env == old(stage.Task.Env)) && (stage.Variables == nil ==> stage.Task.Variables == old(stage.Task.Variables))
 //@   callsite Schedule
 //@     requires #C18.no-inclusion-cycle !(stage.Name in stage.Pipeline.nodes && stage.Pipeline.nodes[stage.Name] == stage)
 //@     assume stage.Status == old(stage.Status) // the nested run writes only the statuses of the included pipeline's own nodes, and this stage is not one of them (the obligation above)
@@ -215,6 +241,7 @@ package scheduler
 //@   inline
 //@   requires s != nil && s.taskRunner != nil
 //@   modifies *
+//@   ensures #C12.raises-the-flag-and-cancels-the-runner s.cancelled == 1 && calls(Cancel) == 1
 //@   ensures #C12.flag-raised s.cancelled == 1
 // C03: Cancel is also called from INSIDE a stage goroutine (a nested run whose stage condition cannot be
 // evaluated cancels the whole scheduler): it must wait for nothing but the runner's own Cancel — waiting
